@@ -255,7 +255,7 @@ def run(c):
     simdir = {k: os.path.join(c.work, "sim_" + k) for k in ("s3", "s4")}
     for d in simdir.values():
         os.makedirs(d, exist_ok=True)
-    nsim, dsim = (40, 45) if quick else (700, 60)
+    nsim, dsim = (40, 45) if quick else (400, 60)
     # generation configurations also check all properties: one observer, one restart, every transition
     GENS = [("gen3", "Gen_DposLib.cfg", "gen-T3"), ("gen4", "Gen_DposLib_T4.cfg", "gen-T4"), ("gen4s", "Gen_DposLib_T4s.cfg", "gen-T4s"),
             ("gen4e", "Gen_DposLib_T4e.cfg", "gen-T4e"), ("gen3w", "Gen_DposLib_T3w.cfg", "gen-T3w")]
@@ -277,7 +277,7 @@ def run(c):
     if not quick:
         jobs += [(k, cfg, 1, 600, None) for (k, cfg, _, _) in HISTORIC]
         jobs.append(("genfull", "Gen_DposLib_full.cfg", 1, 1500, None))
-        jobs.append(("simdeep", "Sim_DposLib4.cfg", 3, 1500, ["-simulate", "num=12000", "-depth", "70", "-seed", str(c.seed * 7919 + 5)]))
+        jobs.append(("simdeep", "Sim_DposLib4.cfg", 3, 1500, ["-simulate", "num=5000", "-depth", "70", "-seed", str(c.seed * 7919 + 5)]))
     with concurrent.futures.ThreadPoolExecutor(max_workers=2) as ex:
         fb = ex.submit(build_harness, c)
         ft = ex.submit(tlc_batch, c, jobs, 5)
@@ -289,9 +289,9 @@ def run(c):
             c.require_ok(R[k], what)
         if not quick:
             r = R["simdeep"]
-            c.add_tlc(r, "simulation, 12000 behaviours: 4 producers, 1 equivocating, 3 correct nodes, 2 restarts: all properties")
+            c.add_tlc(r, "simulation, 5000 more behaviours: 4 producers, 1 equivocating, 3 correct nodes, 2 restarts: all properties")
             if "Error:" in r.out:
-                raise vlib.Infra("simulation (Sim_DposLib4.cfg, 12000 behaviours) found an error in the design:\n" + r.out[-3000:])
+                raise vlib.Infra("simulation (Sim_DposLib4.cfg, 5000 behaviours) found an error in the design:\n" + r.out[-3000:])
             for (k, cfg, prop, what) in HISTORIC:
                 r = R[k]
                 c.add_tlc(r, "model of the code BEFORE the repairs, for the record: counterexample to %s (%s)" % (prop, what))
@@ -316,7 +316,7 @@ def run(c):
         gf = []
         if not quick:
             c.require_ok(R["genfull"], "transition enumeration: full protocol, 3 nodes, 3 blocks, 1 restart")
-            gf, ntrf, nstf, totf = graph_behaviours(R["genfull"], "Gen_DposLib_full.cfg", "gen-full", rng, max_paths=4000)
+            gf, ntrf, nstf, totf = graph_behaviours(R["genfull"], "Gen_DposLib_full.cfg", "gen-full", rng, max_paths=2500)
             c.notes.append("Gen_DposLib_full: %d transitions, %d states, %d covering behaviours, %d replayed" % (ntrf, nstf, totf, len(gf)))
         _t("behaviours: %d open-finding scenarios, %d edge cover, %d+%d simulated, %d full-protocol edge cover" % (len(scen), len(gen), len(s3), len(s4), len(gf)))
         replay(c, exe, scen, "open", nshards=max(1, len(scen)))
